@@ -149,6 +149,9 @@ type IndexDesc struct {
 	HasCnt bool     `json:"hascnt"`           // whether the adapter reported an ItemCount at all
 	Proj   string   `json:"proj,omitempty"`   // reported ProjectionType ("" when the description has none)
 	NonKey []string `json:"nonkey,omitempty"` // reported NonKeyAttributes
+	// EmptyKeyed (model side only): how many of the Count items have an empty string / binary as the key of this
+	// hash-only index (see the listed finding "empty-hash-only-index-key")
+	EmptyKeyed int64 `json:"-"`
 }
 
 // Desc is the normalised TableDescription.
